@@ -15,7 +15,7 @@ HB(s) == HexToBytes(s)
 Classes == {"der_ok", "der_bad", "der_len_long_form", "der_indefinite", "der_leading_zero", "der_negative", "der_trailing",
             "der_wrong_tag", "der_empty_int", "der_33_byte", "der_value_zero", "der_value_ge_n", "der_short_input",
             "build_roundtrip", "build_high_bit", "build_short",
-            "cmp_ok", "cmp_bad_len", "cmp_zero", "cmp_ge_n", "cmpv_ok",
+            "cmp_ok", "cmp_bad_len", "cmp_zero", "cmp_ge_n", "cmpv_ok", "spki_prefix_sweep",
             "bip_ok", "bip_len_edge", "bip_bad", "bip_but_not_der", "bip_neg", "bip_padding",
             "spki_ok_unc", "spki_ok_cmp", "spki_unused_bits", "spki_unused_bits_zero_pad", "spki_bad_oid", "spki_trailing",
             "spki_bad_point", "spki_identity", "spki_params", "spki_bad", "random_bytes", "model_sig_shape", "model_spki_shape", "enc_stable"}
